@@ -476,6 +476,19 @@ func (c C16) Run(t *tape.Tape, opt core.RunOpt) (res core.Result) {
 		}
 	}
 	explicitExt := map[string]bool{} // types the definition set itself extends
+	// the built-in scalar String gains a directive through an extension (String
+	// is the one built-in scalar the library lets a schema extend): every root
+	// has a String of its own
+	if !illFormed && t.Bool(1, 8) {
+		for _, f := range frags {
+			if f.spec != nil && f.spec.Kind == "directive" {
+				frags = append(frags, &c16Frag{name: "<extend scalar String>", refs: []string{f.name},
+					text: "extend scalar String @" + f.spec.Name + "\n"})
+				res.Count("probe_built_in_scalar_extended", 1)
+				break
+			}
+		}
+	}
 	// an input type gains a defaulted field through an extension that is part of
 	// the definition set (a split may deliver it in a later load than the
 	// directives and fields that use the input type)
